@@ -79,20 +79,44 @@ class _RenameLocals(ast.NodeTransformer):
         local = {s for s in stores if s not in params and s not in declared and s not in nested_defs and s not in nested_params and not hasattr(builtins, s) and s != '_'}
         mapping = {name: f'{self.prefix}_{i}_{name[:1]}' for i, name in enumerate(sorted(local))}
 
-        class R(ast.NodeTransformer):
-            def visit_Name(self, n: ast.Name) -> ast.AST:
-                if n.id in mapping:
-                    return ast.copy_location(ast.Name(id=mapping[n.id], ctx=n.ctx), n)
-                return n
-
-            def visit_FunctionDef(self, n: ast.FunctionDef) -> ast.AST:
-                # nested functions that assign the same name shadow it: leave those alone
-                shadow = {x.id for x in ast.walk(n) if isinstance(x, ast.Name) and isinstance(x.ctx, ast.Store)} & set(mapping)
-                if shadow:
+        def make(mp):
+            class R(ast.NodeTransformer):
+                def visit_Name(self, n: ast.Name) -> ast.AST:
+                    if n.id in mp:
+                        return ast.copy_location(ast.Name(id=mp[n.id], ctx=n.ctx), n)
                     return n
-                self.generic_visit(n)
-                return n
 
+                def _nested(self, n):
+                    a = n.args
+                    own = {x.arg for x in a.posonlyargs + a.args + a.kwonlyargs}
+                    if a.vararg:
+                        own.add(a.vararg.arg)
+                    if a.kwarg:
+                        own.add(a.kwarg.arg)
+                    if isinstance(n, ast.FunctionDef):
+                        comp_targets = {id(t) for c in ast.walk(n) if isinstance(c, (ast.ListComp, ast.SetComp, ast.GeneratorExp, ast.DictComp))
+                                        for g in c.generators for t in ast.walk(g.target)}
+                        for x in ast.walk(n):
+                            if isinstance(x, ast.Name) and isinstance(x.ctx, ast.Store) and id(x) not in comp_targets:
+                                own.add(x.id)
+                    inner = {k: v for k, v in mp.items() if k not in own}
+                    sub = make(inner)()
+                    if isinstance(n, ast.FunctionDef):
+                        n.body = [sub.visit(st) for st in n.body]
+                        n.decorator_list = [self.visit(d) for d in n.decorator_list]
+                    else:
+                        n.body = sub.visit(n.body)
+                    return n
+
+                def visit_FunctionDef(self, n: ast.FunctionDef) -> ast.AST:
+                    return self._nested(n)
+
+                def visit_Lambda(self, n: ast.Lambda) -> ast.AST:
+                    return self._nested(n)
+
+            return R
+
+        R = make(mapping)
         for i, st in enumerate(fn.body):
             fn.body[i] = R().visit(st)
 
